@@ -42,6 +42,9 @@ def doRun (st : McSt) (ws : List String) (fromStates : Bool) : McSt × List Stri
     -- is on evaluated *sets* for multi-start runs, so any tie order is fine here
     st.collected.foldl (fun acc s =>
       let (a, b) := acc.span (fun x => x.depth ≤ s.depth); a ++ [s] ++ b) []
+  let sortedStartsRef : List Sys :=
+    st.collectedRef.foldl (fun acc s =>
+      let (a, b) := acc.span (fun x => x.depth ≤ s.depth); a ++ [s] ++ b) []
   let outcome : Option (Res Sys × Totals PState) :=
     if fromStates then
       (runFromStates st.cfg h preds (fun _ => 0) strat fuelDefault sys cb mode' (sortedStarts.map (·.getState))).map
@@ -56,27 +59,40 @@ def doRun (st : McSt) (ws : List String) (fromStates : Bool) : McSt × List Stri
     | some (.err msg e, tot) =>
       (s!"err:{if msg.startsWith "nothing left" then "deadend" else msg}", tot.evald, tot.collected, tot.statuses, some e)
     | some (.panic _, tot) => ("panic", tot.evald, tot.collected, tot.statuses, none)
-  let refLines : List String :=
-    if !st.refenum || fromStates then [] else
-      -- (a) the contract-conforming reference variant of the model checker (no D1)
+  let refOut : List String × List Sys :=
+    if !st.refenum then ([], []) else
+      -- (a) the contract-conforming reference variant of the model checker (no D1); a staged run starts from the states the
+      --     reference variant itself collected in the previous run
       let cfgRef : Cfg := { st.cfg with overrideLeavesOld := false }
       let cbRef := applyCbs cfgRef h st.cbs
-      let (vres, vset) := match runImpl cfgRef h preds (fun _ => 0) strat fuelDefault sys cbRef acc0 with
-        | none => ("fuel", [])
-        | some (r, acc', _) =>
-          ((match r with | .ok => "ok" | .err msg _ => s!"err:{if msg.startsWith "nothing left" then "deadend" else msg}" | .panic _ => "panic"),
-           sortStrs (acc'.evald.map projSys))
-      -- (b) the independent enumeration of the reference semantics
+      let showRes (r : Res Sys) : String := match r with
+        | .ok => "ok" | .err msg _ => s!"err:{if msg.startsWith "nothing left" then "deadend" else msg}" | .panic _ => "panic"
+      let (vres, vset, vcol) : String × List String × List Sys :=
+        if fromStates then
+          match runFromStates cfgRef h preds (fun _ => 0) strat fuelDefault sys cbRef mode' (sortedStartsRef.map (·.getState)) with
+          | none => ("fuel", [], [])
+          | some (r, tot, _) => (showRes r, sortStrs (tot.evald.map projSys), tot.collected)
+        else
+          match runImpl cfgRef h preds (fun _ => 0) strat fuelDefault sys cbRef acc0 with
+          | none => ("fuel", [], [])
+          | some (r, acc', _) => (showRes r, sortStrs (acc'.evald.map projSys), acc'.collected)
+      -- (b) the independent enumeration of the reference semantics (for a staged run: from every start state, union)
       let topo := sys.nodes.map fun nd => (nd.1, nd.2.procs.map (·.1))
-      let r0 : Option (RS × Mode) := st.cbs.foldl (fun rm cb => rm.bind (fun x => rApplyCb h x cb))
-        (some ({ (rInit sys) with trace := (rInit sys).trace ++ [LogE.started] }, sys.mode))
-      let (rres, rset) := match r0 with
-        | none => ("cb-impossible", [])
+      let invR := condR! (kv ws "inv"); let goalR := condR! (kv ws "goal"); let pruneR := condR! (kv ws "prune")
+      let starts : List Sys := if fromStates then sortedStartsRef else [sys]
+      let (rres, rset) := starts.foldl (fun (acc : String × EnumOut) c =>
+        if acc.1 != "ok" then acc else
+        let r0 : Option (RS × Mode) := st.cbs.foldl (fun rm cb => rm.bind (fun x => rApplyCb h x cb))
+          (some ({ (rInit c) with trace := (rInit c).trace ++ [LogE.started] }, sys.mode))
+        match r0 with
+        | none => ("cb-impossible", acc.2)
         | some (r, mode) =>
-          let invR := condR! (kv ws "inv"); let goalR := condR! (kv ws "goal"); let pruneR := condR! (kv ws "prune")
-          let out := refEnum h mode topo invR goalR pruneR 20000 r 0 {}
-          (if out.capped then "capped" else if out.failed then "fail" else "ok", out.seen)
-      [s!"vres={vres} rres={rres}"] ++ vset.map ("V " ++ ·) ++ (if rres == "ok" then rset.map ("R " ++ ·) else [])
+          let out := refEnum h mode topo invR goalR pruneR 20000 r c.depth { acc.2 with count := 0 }
+          (if out.capped then "capped" else if out.failed then "fail" else "ok", out)) ("ok", ({} : EnumOut))
+        |> fun (x : String × EnumOut) => (x.1, x.2.seen)
+      ([s!"vres={vres} rres={rres}"] ++ vset.map ("V " ++ ·) ++ (if rres == "ok" then rset.map ("R " ++ ·) else []),
+       if vres == "ok" then vcol else [])
+  let refLines := refOut.1
   let isOk := res == "ok"
   let col := if isOk then col else []
   let lines := [s!"{hdr} result={res} evaluated={ev.length} collected={col.length}"]
@@ -88,7 +104,7 @@ def doRun (st : McSt) (ws : List String) (fromStates : Bool) : McSt × List Stri
         | none => [])
     ++ (if isOk then [s!"stat {showList (stt.map fun (k, n) => s!"{k}:{n}")}"] else [])
     ++ refLines
-  ({ st with sys := some sys, cbs := [], collected := col, runs := st.runs + 1, dead := res == "panic" || res == "fuel" }, lines)
+  ({ st with sys := some sys, cbs := [], collected := col, collectedRef := refOut.2, runs := st.runs + 1, dead := res == "panic" || res == "fuel" }, lines)
 
 def mcLine (st : McSt) (line : String) : McSt × List String :=
   match words line with
